@@ -37,7 +37,7 @@ Section Rows.
   Variable jump : A -> A -> bool.               (* norm(b - a) > 1 *)
   Variable interp : A -> A -> nat -> nat -> A.  (* interp a b k n = slerp(a, b, [k/n]) *)
 
-  Definition row := option A.
+  Local Notation row := (option A).
   Definition isnan (r : row) : bool := match r with None => true | Some _ => false end.
   Definition nan_mask (rows : list row) : list bool := map isnan rows.
   Definition neg_row (r : row) : row := match r with None => None | Some a => Some (negx a) end.
